@@ -5,6 +5,8 @@
 def c09_general(fcp: "ref:FcpV2"):
     option("module", "fcp.verifier")
     option("inline_calls", ["fcp.verifier:Verifier.verify"])
+    option("opaque", ["missing_service"])
+    hint(0)
     ensures(result.is_ok() == wf_general(fcp))
     ensures(result.is_err() == (not wf_general(fcp)))
     use_lemma(flat_all_1(fcp))
@@ -17,6 +19,8 @@ def c09_general(fcp: "ref:FcpV2"):
 def c09_dbc(fcp: "ref:FcpV2"):
     option("module", "fcp.verifier")
     option("inline_calls", ["fcp.verifier:Verifier.verify"])
+    option("opaque", ["missing_service"])
+    hint(0)
     option("imports", {"DbcGenerator": "fcp_dbc.generator:Generator"})
     ensures(result.is_ok() == (wf_general(fcp) and wf_dbc(fcp)))
     ensures(result.is_err() == (not (wf_general(fcp) and wf_dbc(fcp))))
